@@ -132,8 +132,9 @@ static Outcome encode_to_sink(const std::string& json_text, size_t capacity, int
     try {
         std::string text = encode(json_text, 1);
         ojson j = csv::decode_csv<ojson>(text, csv::csv_options{}.assume_header(true));
-        sim::SimOutbuf ob(capacity, kind);
+        sim::SimOutbuf ob(capacity, kind > 2 ? kind - 2 : kind);
         std::ostream os(&ob);
+        if (kind > 2) os.exceptions(std::ios::badbit | std::ios::failbit);
         csv::encode_csv(j, os);
         o.events = os.good() ? "good" : "stream-failed";
         o.stream_failed = ob.failures_fired > 0; o.delivered = ob.written.size();
